@@ -24,7 +24,7 @@ func (*c05) Rule() string {
 
 func (k *c05) Setup(c *core.Ctx) (int, error) {
 	k.variants = c.N(8, 24)
-	return c.N(70, 700), nil
+	return c.N(160, 1500), nil
 }
 
 func (*c05) Finish(c *core.Ctx) {
